@@ -52,9 +52,15 @@ def build_u(spec, r):
     raise ValueError(u['kind'])
 
 
-def build_gamma(spec, n):
+def build_gamma(spec, n, u=None):
     v = np.asarray(spec['gamma'], dtype=float)
-    return np.tile(v, -(-n // len(v)))[:n].copy()
+    g = np.tile(v, -(-n // len(v)))[:n].copy()
+    if u is not None and spec.get('gamma_tracks_u'):
+        # gamma of the size of the potential itself: gamma - u stays moderate although both are large (the regime of a steep but
+        # finite repulsion next to a neighbour that pushes gamma up), so exp(gamma - u) is an ordinary number
+        with np.errstate(all='ignore'):
+            g = np.where(np.isfinite(u) & (np.abs(u) < 1e4), u + np.clip(g, -30.0, 30.0), g)
+    return g
 
 
 def spec_strategy():
@@ -65,14 +71,14 @@ def spec_strategy():
     u = st.one_of(
         st.just({'kind': 'zero'}),
         st.builds(lambda e, s, a: {'kind': 'exp', 'eps': e, 's': s, 'alpha': a}, specs.signed(-3, 1), specs.fl(0.2, 3), specs.fl(0.1, 3)),
-        st.lists(st.one_of(specs.fl(-5, 5), specs.signed(-8, 3)), min_size=1, max_size=12).map(lambda v: {'kind': 'list', 'values': v}),
+        st.lists(st.one_of(specs.fl(-5, 5), specs.signed(-8, 3), specs.fl(20, 800, 4)), min_size=1, max_size=12).map(lambda v: {'kind': 'list', 'values': v}),
         st.builds(lambda e, s, a, h: {'kind': 'core', 'eps': e, 's': s, 'alpha': a, 'high': h}, specs.signed(-3, 1), specs.fl(0.2, 3),
                   specs.fl(0.1, 3), st.sampled_from([1e3, 1e6, 1e300])))
     sigma = st.one_of(st.builds(lambda i: {'on': i}, st.integers(0, 60)), specs.fl(0.0, 6.0).map(lambda v: {'at': v}),
                       st.just({'at': 0.0}), st.just({'at': 1e9}))
     return st.fixed_dictionaries({'closure': st.sampled_from(sorted(CLASSES)), 'alias': st.booleans(), 'flag': st.booleans(),
                                   'grid': st.one_of(uni, arb), 'gamma': st.lists(gval, min_size=1, max_size=24), 'u': u, 'sigma': sigma,
-                                  'sub_seed': st.integers(0, 2 ** 31 - 1)})
+                                  'sub_seed': st.integers(0, 2 ** 31 - 1), 'gamma_tracks_u': st.sampled_from([False, False, True])})
 
 
 def sigma_of(spec, r):
@@ -141,8 +147,8 @@ class Definition(Sub):
         which, flag = spec['closure'], spec['flag']
         r = grid(spec)
         n = len(r)
-        gamma = build_gamma(spec, n)
         u = build_u(spec, r)
+        gamma = build_gamma(spec, n, u)
         sigma = sigma_of(spec, r)
         clo = make_closure(which, spec['alias'], flag)
         base = getattr(P.closure, CLASSES[which][0])
@@ -247,6 +253,8 @@ class Definition(Sub):
         ins = r <= sigma
         out.nontrivial = bool(np.any(gamma != 0) and np.any(u[outs] != 0) and (not flag or (np.any(ins) and np.any(outs))))
         out.label(which, 'flag' if flag else 'noflag', 'u=' + spec['u']['kind'], 'grid=' + spec['grid']['kind'])
+        if spec.get('gamma_tracks_u') and np.any((np.abs(u) >= 30) & (np.abs(u) < 1e4)):
+            out.label('gamma~u>=30')
         if flag:
             out.label('core-points' if np.any(ins) else 'no-core-points')
         if not np.all(np.isfinite(c)):
